@@ -40,6 +40,7 @@ from deepali.utils.imageio.meta import read_meta_image
 SUFFIXES = [".mha", ".mhd", ".nii", ".nii.gz", ".hdr", ".img", ".img.gz", ".nrrd", ".nhdr", ".mnc", ".vtk", ".hdf5"]
 # what a format can represent (probed with this SimpleITK build): payloads are adapted, not the oracle
 CAPS = {".vtk": {"oriented": False}, ".hdf5": {"max_channels": 1}}
+DIRLINK = "lnk"  # symbolic link to the directory sub/deep
 SUBDIR = "sub"  # a second directory holding a file of the same base name: the same relative spelling from two working directories
 NEWDIR = "new/deeper"  # does not exist until the first write into it: writers create missing parent directories
 STEMS = ["s0", "s 1", "s%202", SUBDIR + "/s0", NEWDIR + "/s3"]  # plain, with a space, with a literal percent escape (all valid POSIX names; '#' and '?' are
@@ -261,6 +262,10 @@ class IoWorld:
         base = "/dev/shm" if os.path.isdir("/dev/shm") and os.access("/dev/shm", os.W_OK) else None
         self.root = tempfile.mkdtemp(prefix="iosim-", dir=base)
         os.mkdir(os.path.join(self.root, SUBDIR))
+        # a symbolic link to a directory whose parent is not the directory of the link: 'lnk/../x' names sub/x for the
+        # operating system (and for SimpleITK and nibabel), while collapsing '..' textually would name x in the run directory
+        os.mkdir(os.path.join(self.root, SUBDIR, "deep"))
+        os.symlink(os.path.join(SUBDIR, "deep"), os.path.join(self.root, DIRLINK))
         self.rec: Dict[str, Record] = {}
         self.c = {k: Counter() for k in ("faults", "probes", "checks", "ops")}
         self.states = set()
@@ -300,7 +305,7 @@ class IoWorld:
         for d, dirs, _files in os.walk(self.root):
             for dd in dirs:
                 rel = os.path.relpath(os.path.join(d, dd), self.root)
-                if rel not in (SUBDIR, NEWDIR, NEWDIR.split("/")[0]):
+                if rel not in (SUBDIR, NEWDIR, NEWDIR.split("/")[0], DIRLINK, SUBDIR + "/deep"):
                     out[rel] = "<dir>"
         return out
 
@@ -348,6 +353,9 @@ class IoWorld:
             return Path(p), None
         if form == "uri":
             return "file://" + p, None
+        if form == "dotdot" and name.startswith(SUBDIR + "/") and "/" not in name[len(SUBDIR) + 1:]:
+            self.c["probes"]["path_through_directory_link_and_dotdot"] += 1
+            return os.path.join(self.root, DIRLINK, "..", name[len(SUBDIR) + 1:]), None
         if form == "rel" and os.path.isdir(os.path.dirname(p)):
             return os.path.basename(name), os.path.dirname(p)  # relative to a changed cwd (the directory of the file)
         return p, None
@@ -933,7 +941,11 @@ class _Ops:
         self.c["ops"][kind] += 1
         if self.held and (kind in ("swrite", "torn") or op.get("entry") == "sitk_bridge") and "name" in op:
             stem = self.stem_of(op["name"])
-            self._drop_held({f for h in self.held for f in h["files"] if f.startswith(stem + ".")})
+            mine = {f for h in self.held for f in h["files"] if f.startswith(stem + ".")}
+            rec_ = self.rec.get(op["name"])
+            if rec_ is not None:
+                mine |= set(rec_.files)  # through a symbolic link it is the file the link points to that is modified in place
+            self._drop_held(mine)
         sr = fn(op)
         if self.held and kind in ("dwrite", "delete") and sr.status in ("ok", "faulted"):
             self.nontrivial = True
@@ -983,6 +995,8 @@ class _Gen:
 
     def rel_bias(self, rng: Rng, name: str, form: str) -> str:
         """The same relative spelling used from two working directories: whatever remembers a path string is wrong then."""
+        if name.startswith(SUBDIR + "/") and rng.chance(0.3):
+            return "dotdot"  # '<link to a directory>/../<file>'
         if self.sc["n_stems"] >= 4 and os.path.isfile(self.full(self.twin_of(name))) and rng.chance(0.6):
             return "rel"
         return form
